@@ -8,10 +8,19 @@ os.environ.setdefault("JAVA_TOOL_OPTIONS", "-Dfile.encoding=UTF-8 -Dstdout.encod
 NPROC = max(1, min(8, vlib.NCPU))
 
 
+BASE_JTO = os.environ["JAVA_TOOL_OPTIONS"]
+# short runs are dominated by JVM start-up / parsing: C1 compiler only, few GC and compiler threads
+SHORT_JTO = BASE_JTO + " -XX:TieredStopAtLevel=1 -XX:CICompilerCount=2 -XX:ParallelGCThreads=4"
+
+
 def tlc(ctx, module, cfg, out, simulate=None, depth=None, consts=None, timeout=1500, workers=None):
     """Run TLC, stream the CASE payloads to `out`, account states in the evidence. Returns (res, ncases)."""
-    res = vlib.run_tlc(module, cfg, workers=workers or NPROC, timeout=timeout, seed=ctx.seed, simulate=simulate, depth=depth,
-                       consts=consts, payloads={"CASE": out}, heap="6g")
+    os.environ["JAVA_TOOL_OPTIONS"] = BASE_JTO if simulate else SHORT_JTO
+    try:
+        res = vlib.run_tlc(module, cfg, workers=workers or NPROC, timeout=timeout, seed=ctx.seed, simulate=simulate, depth=depth,
+                           consts=consts, payloads={"CASE": out}, heap="6g")
+    finally:
+        os.environ["JAVA_TOOL_OPTIONS"] = BASE_JTO
     if res.violated:
         raise vlib.HarnessError("design model %s/%s violates its own invariant %s:\n%s" % (module, cfg, res.violated, res.error_state))
     if simulate:
